@@ -30,60 +30,59 @@ EXPLANATION = ("admission rule for run-grouped rows (boolean path conditions onl
 FIELDS = "magpylib._src.fields."
 # ---- triage tables: (function, normalised expression) -> one line of reason
 K1_TRIAGED = {
-    ("BHJM_cylinder_segment", "not np.any(mask_not_on_surf)"): "early return of zeros for B/H when every row is on the surface; identical to the masked result (`BHJM[~mask_not_on_surf] *= 0`)",
-    ("BHJM_current_polyline", "np.all(mask0)"): "early return of the zero array when every segment has zero length; identical to the masked result",
-    ("BHJM_current_polyline", "np.any(mask0)"): "drops zero-length segments before the computation and writes results back under ~mask0",
-    ("el3v", "np.any(w == 0)"): "error check (raises)",
-    ("celv", "np.any(mask)"): "row-wise convergence loop: every update is masked by the row's own convergence mask",
-    ("cel_iterv", "np.any(np.fabs(g - qc) >= qc * 1e-08)"): "batch-level convergence: all rows iterate until the slowest converged (extra iterations change converged rows at rounding level only)",
-    ("el3v", "np.any(mask10)"): "row-wise convergence loop masked by the row's own mask",
-    ("cel", "n_input < 10"): "batch-size switch between the scalar loop and the vectorised routine (same algorithm)",
-    ("el3", "n_input < 10"): "batch-size switch between the scalar loop and the vectorised routine (same algorithm)",
-    ("cel_iter", "n_input < 15"): "batch-size switch; the scalar branch result is discarded (no return), so the vectorised routine always runs",
-    ("current_vertices_field", "all((v == nvs[0] for v in nvs))"): "uniform/ragged vertex-count switch (layout only)",
-    ("get_disconnected_faces_subsets", "len(tria_temp) > 0"): "connectivity sweep over the faces of ONE mesh, not over batch rows",
-    ("get_disconnected_faces_subsets", "len(first) > lf"): "connectivity sweep over the faces of ONE mesh, not over batch rows",
-    ("get_disconnected_faces_subsets", "len(first.intersection(set(r))) > 0"): "connectivity sweep over the faces of ONE mesh, not over batch rows",
-    ("get_inwards_mask", "indices"): "face-orientation sweep over the faces of ONE mesh, not over batch rows",
-    ("lines_end_in_trimesh", "np.any(coincide)"): "skip-empty-work with local temporaries under the same mask",
-    ("BHJM_circle", "np.any(mask3)"): "skip-empty-work: derives sub-masks of mask3 and writes under them",
-    ("current_polyline_Hfield", "np.any(mask1)"): "skip-empty-work: computes on ~mask1 rows and writes under that mask",
-    ("dipole_Hfield", "np.any(mask1)"): "skip-empty-work under errstate",
-    ("magnet_cylinder_diametral_Hfield", "np.any(mask_small_r)"): "skip-empty-work with local temporaries selected by the same mask",
-    ("magnet_cylinder_diametral_Hfield", "np.any(mask_general)"): "skip-empty-work with local temporaries selected by the same mask",
-    ("el3_angle", "np.any(mask3)"): "skip-empty-work with local temporaries selected by the same mask",
-    ("el3_angle", "np.any(mask3x)"): "skip-empty-work with local temporaries selected by the same mask",
-    ("el3_angle", "np.any(mask3xa)"): "skip-empty-work; np.ones(np.sum(mask)) allocates per selected row",
-    ("el3_angle", "np.any(mask3xb)"): "skip-empty-work; np.ones(np.sum(mask)) allocates per selected row",
-    ("el3v", "np.any(box)"): "skip-empty-work: derives sub-masks and writes under them",
-    ("el3v", "np.any(bo10)"): "skip-empty-work: derives sub-masks and writes under them",
-    ("el3v", "np.any(mask11)"): "skip-empty-work: derives sub-masks and writes under them",
-    ("el3v", "np.any(bo10x_bkx)"): "skip-empty-work with local temporaries under the same mask",
+    ('BHJM_cylinder_segment', 'not np.any(_)'): 'early return of zeros for B/H when every row is on the surface; identical to the masked result (`BHJM[~mask_not_on_surf] *= 0`)',
+    ('BHJM_current_polyline', 'np.all(_)'): 'early return of the zero array when every segment has zero length; identical to the masked result',
+    ('BHJM_current_polyline', 'np.any(_)'): 'drops zero-length segments before the computation and writes results back under ~mask0',
+    ('el3v', 'np.any(_ == 0)'): 'error check (raises)',
+    ('celv', 'np.any(_)'): "row-wise convergence loop: every update is masked by the row's own convergence mask",
+    ('cel_iterv', 'np.any(np.fabs(_ - _) >= _ * 1e-08)'): 'batch-level convergence: all rows iterate until the slowest converged (extra iterations change converged rows at rounding level only)',
+    ('el3v', 'np.any(_)'): 'skip-empty-work with local temporaries under the same mask',
+    ('cel', '_ < 10'): 'batch-size switch between the scalar loop and the vectorised routine (same algorithm)',
+    ('el3', '_ < 10'): 'batch-size switch between the scalar loop and the vectorised routine (same algorithm)',
+    ('cel_iter', '_ < 15'): 'batch-size switch; the scalar branch result is discarded (no return), so the vectorised routine always runs',
+    ('current_vertices_field', 'all((_ == _[0] for _ in _))'): 'uniform/ragged vertex-count switch (layout only)',
+    ('get_disconnected_faces_subsets', 'len(_) > 0'): 'connectivity sweep over the faces of ONE mesh, not over batch rows',
+    ('get_disconnected_faces_subsets', 'len(_) > _'): 'connectivity sweep over the faces of ONE mesh, not over batch rows',
+    ('get_disconnected_faces_subsets', 'len(_.intersection(set(_))) > 0'): 'connectivity sweep over the faces of ONE mesh, not over batch rows',
+    ('get_inwards_mask', '_'): 'face-orientation sweep over the faces of ONE mesh, not over batch rows',
+    ('lines_end_in_trimesh', 'np.any(_)'): 'skip-empty-work with local temporaries under the same mask',
+    ('BHJM_circle', 'np.any(_)'): 'skip-empty-work: derives sub-masks of mask3 and writes under them',
+    ('current_polyline_Hfield', 'np.any(_)'): 'skip-empty-work: computes on ~mask1 rows and writes under that mask',
+    ('dipole_Hfield', 'np.any(_)'): 'skip-empty-work under errstate',
+    ('magnet_cylinder_diametral_Hfield', 'np.any(_)'): 'skip-empty-work with local temporaries selected by the same mask',
+    ('el3_angle', 'np.any(_)'): 'skip-empty-work; np.ones(np.sum(mask)) allocates per selected row',
 }
 K2_TRIAGED = {
-    ("determine_cases", "np.sum(result, axis=0)"): "axis 0 of `result` is the 3 case digits, not the batch",
-    ("current_vertices_field", "np.cumsum(nvs - 1)"): "split offsets of the ragged per-source segment lists",
-    ("current_vertices_field", "np.sum(bh, axis=0)"): "sums the segments that belong to ONE source/observer row (regrouping after np.split)",
-    ("BHJM_magnet_trimesh", "np.cumsum(nvs)"): "split offsets of the ragged per-source face lists",
-    ("BHJM_magnet_trimesh", "np.sum(bh, axis=0)"): "sums the faces that belong to ONE source/observer row (regrouping after np.split)",
-    ("calculate_centroid", "np.sum(triangle_areas)"): "sum over the faces of one mesh",
-    ("get_open_edges", "np.unique(edges, axis=0, return_counts=True)"): "edge multiset of one mesh",
-    ("is_facet_inwards", "face.mean(axis=0)"): "centroid of one face",
-    ("get_intersecting_triangles", "np.unique(pairs[sums > 0])"): "index set over the faces of one mesh",
-    ("get_intersecting_triangles", "np.sqrt(((facets - centers[:, None, :]) ** 2).sum(-1)).max()"): "largest face radius of one mesh",
-    ("get_intersecting_triangles", "((facets - centers[:, None, :]) ** 2).sum(-1)"): "sum over the coordinate axis",
-    ("mask_inside_enclosing_box", "np.min(vertices, axis=0)"): "bounding box of one mesh",
-    ("mask_inside_enclosing_box", "np.max(vertices, axis=0)"): "bounding box of one mesh",
-    ("mask_inside_trimesh", "np.min(vertices, axis=0)"): "bounding box of one mesh",
-    ("el3v", "np.sum(mask2)"): "count used only for allocation",
-    ("el3_angle", "np.sum(mask3)"): "count used only for allocation",
-    ("el3_angle", "np.sum(mask3x)"): "count used only for allocation",
-    ("el3_angle", "np.sum(mask3xa)"): "count used only for allocation",
-    ("el3_angle", "np.sum(mask3xb)"): "count used only for allocation",
+    ('determine_cases', 'np.sum(_, axis=0)'): 'axis 0 of `result` is the 3 case digits, not the batch',
+    ('current_vertices_field', 'np.cumsum(_ - 1)'): 'split offsets of the ragged per-source segment lists',
+    ('current_vertices_field', 'np.sum(_, axis=0)'): 'sums the segments that belong to ONE source/observer row (regrouping after np.split)',
+    ('BHJM_magnet_trimesh', 'np.cumsum(_)'): 'split offsets of the ragged per-source face lists',
+    ('BHJM_magnet_trimesh', 'np.sum(_, axis=0)'): 'sums the faces that belong to ONE source/observer row (regrouping after np.split)',
+    ('calculate_centroid', 'np.sum(_)'): 'sum over the faces of one mesh',
+    ('get_open_edges', 'np.unique(_, axis=0, return_counts=True)'): 'edge multiset of one mesh',
+    ('is_facet_inwards', '_.mean(axis=0)'): 'centroid of one face',
+    ('get_intersecting_triangles', 'np.unique(_[_ > 0])'): 'index set over the faces of one mesh',
+    ('get_intersecting_triangles', 'np.sqrt(((_ - _[:, None, :]) ** 2).sum(-1)).max()'): 'largest face radius of one mesh',
+    ('get_intersecting_triangles', '((_ - _[:, None, :]) ** 2).sum(-1)'): 'sum over the coordinate axis',
+    ('mask_inside_enclosing_box', 'np.min(_, axis=0)'): 'bounding box of one mesh',
+    ('mask_inside_enclosing_box', 'np.max(_, axis=0)'): 'bounding box of one mesh',
+    ('mask_inside_trimesh', 'np.min(_, axis=0)'): 'bounding box of one mesh',
+    ('el3v', 'np.sum(_)'): 'count used only for allocation',
+    ('el3_angle', 'np.sum(_)'): 'count used only for allocation',
 }
 RED = {"sum", "mean", "cumsum", "cumprod", "sort", "argsort", "roll", "unique", "median", "max", "min", "amax", "amin", "diff", "flip", "prod",
        "std", "var", "argmax", "argmin", "ptp", "average", "nansum", "nanmax", "nanmin", "nanmean", "searchsorted", "partition", "percentile",
        "quantile", "trapz", "convolve", "correlate", "interp", "histogram", "bincount", "lexsort"}
+
+
+def shape(node):
+    """rename-invariant text of a construct: local variable names replaced by `_` (attribute, function and keyword names kept)"""
+    import copy as _copy
+    n = _copy.deepcopy(node)
+    for x in ast.walk(n):
+        if isinstance(x, ast.Name) and x.id not in ("np", "len", "all", "any", "abs", "set", "range", "zip"):
+            x.id = "_"
+    return norm(n)
 
 
 def field_functions(repo):
@@ -156,6 +155,9 @@ def skip_empty_work(node):
     return True
 
 
+RUN_GROUP_IFS = []
+
+
 def k1_k2(repo, res):
     n_fn = n1 = n2 = 0
     seen1, seen2 = set(), set()
@@ -165,14 +167,14 @@ def k1_k2(repo, res):
         for n in ast.walk(fn):
             if isinstance(n, (ast.If, ast.While, ast.IfExp)) and is_batch_test(n.test, lens):
                 # nested functions are walked as part of their parent; skip duplicates
-                key = (fname, norm(n.test))
-                if isinstance(n, ast.If) and "prev_ind" in key[1]:
+                if isinstance(n, ast.If) and n in RUN_GROUP_IFS:
                     continue   # the run-group idiom, decided by RUN-GROUP
+                key = (fname, shape(n.test))
                 n1 += 1
                 auto = skip_empty_work(n)
                 ok = auto or key in K1_TRIAGED
                 seen1.add(key)
-                res.ob(f"K1:{fname}:{key[1]}", ok, {"rule": "K1", "function": fname, "batch_level_test": key[1],
+                res.ob(f"K1:{fname}:{norm(n.test)}", ok, {"rule": "K1", "function": fname, "batch_level_test": norm(n.test), "shape": key[1],
                                                    "accepted_as": "skip-empty-work idiom" if auto else K1_TRIAGED.get(key)})
                 if not ok:
                     res.add(Finding("K1", m.rel, fname, n.test, "batch-level branch: the path taken by one row depends on the other rows in the call "
@@ -183,11 +185,11 @@ def k1_k2(repo, res):
                                                             and n.func.value.id == "np" and n.func.attr in ("sum", "mean", "max", "min", "cumsum", "sort") else None)
                 if axv not in (None, "0", "None"):
                     continue
-                key = (fname, norm(n))
+                key = (fname, shape(n))
                 n2 += 1
                 ok = key in K2_TRIAGED
                 seen2.add(key)
-                res.ob(f"K2:{fname}:{key[1]}", ok, {"rule": "K2", "function": fname, "reduction": key[1], "triaged_as": K2_TRIAGED.get(key)})
+                res.ob(f"K2:{fname}:{norm(n)}", ok, {"rule": "K2", "function": fname, "reduction": norm(n), "shape": key[1], "triaged_as": K2_TRIAGED.get(key)})
                 if not ok:
                     res.add(Finding("K2", m.rel, fname, n, "reduction/scan along the first axis (or without axis) in the numerical layer: may combine "
                                     "values of different batch rows (not a triaged site)", n.lineno))
@@ -216,6 +218,7 @@ def run_group(repo, res):
             if not calls:
                 continue
             instances += 1
+            RUN_GROUP_IFS.append(iff)
             call, sl, single = calls[0]
             a, b = sl.slice.lower.id, sl.slice.upper.id
             M = ast.unparse(single.value)
@@ -401,32 +404,31 @@ def level2(repo, res):
 # scalar/vectorised twins selected by batch size: their branch conditions must partition the inputs identically
 TWINS = [("special_cel", "cel0", "celv"), ("special_cel", "cel_iter0", "cel_iterv"), ("special_el3", "el30", "el3v")]
 TWIN_TRIAGED = {
-    ("cel0", "celv", "scalar", ("kc", "0", "==")): "scalar version rejects kc == 0 with RuntimeError; the guard is commented out in the vector version and callers mask that edge",
-    ("el30", "el3v", "scalar", ("g", "0", "<")): "scalar version branches on the sign of g where the vector version uses the pre-computed masks bo/box",
-    ("el30", "el3v", "scalar", ("x", "0", ">")): "sign handling of x is done through np.sign-free masks in the vector version",
-    ("el30", "el3v", "scalar", ("z", "0", "<")): "sign handling of z is done through the mask bo10b in the vector version",
-    ("el30", "el3v", "vector", ("pm", "0", "<")): "vector version names the intermediate pm; same test as p1 < 0 on the scalar path",
-    ("el30", "el3v", "vector", ("pm", "0.5", ">")): "vector version names the intermediate pm",
+    ("cel0", "celv", "scalar", ("_", "0", "==", 1)): "scalar version rejects kc == 0 with RuntimeError; the guard is commented out in the vector version and callers mask that edge",
+    ("el30", "el3v", "scalar", ("_", "0", ">", 1)): "scalar version branches once more on a sign where the vector version uses pre-computed masks",
+    ("el30", "el3v", "vector", ("_", "0.5", ">", 1)): "vector version tests the named intermediate pm > 0.5 where the scalar version nests the same test differently",
 }
 
 
 def twin_conditions(fn):
-    out = set()
+    """multiset of branch conditions, rename-invariant: local names are replaced by `_`, subscripts by masks are dropped"""
+    from collections import Counter
+    out = Counter()
     for c in ast.walk(fn):
         if isinstance(c, ast.Compare) and len(c.ops) == 1:
             def strip(e):
-                t = ast.unparse(e)
+                t = shape(e)
                 t = re.sub(r"\[[A-Za-z_0-9]+\]", "", t)
-                t = t.replace("np.abs", "abs").replace("np.fabs", "abs").replace("m.fabs", "abs").replace("math.fabs", "abs")
+                t = t.replace("np.abs", "abs").replace("np.fabs", "abs").replace("_.fabs", "abs").replace("math.fabs", "abs")
                 t = re.sub(r"\b(\d+)\.0\b", r"\1", t)
                 return t
             a, b, op = strip(c.left), strip(c.comparators[0]), c.ops[0]
             if isinstance(op, (ast.Gt, ast.LtE)):
-                out.add((a, b, ">"))        # {a > b} / {a <= b}: the boundary belongs to the lower side
+                out[(a, b, ">")] += 1        # {a > b} / {a <= b}: the boundary belongs to the lower side
             elif isinstance(op, (ast.Lt, ast.GtE)):
-                out.add((a, b, "<"))        # {a < b} / {a >= b}: the boundary belongs to the upper side
+                out[(a, b, "<")] += 1        # {a < b} / {a >= b}: the boundary belongs to the upper side
             elif isinstance(op, (ast.Eq, ast.NotEq)):
-                out.add((a, b, "=="))
+                out[(a, b, "==")] += 1
     return out
 
 
@@ -438,13 +440,17 @@ def twins(repo, res):
             raise AnalysisError(f"anchor vanished: twin pair {leaf}.{a}/{b}")
         n += 1
         ca, cb = twin_conditions(m.funcs[a]), twin_conditions(m.funcs[b])
-        diffs = [("scalar", x) for x in sorted(ca - cb)] + [("vector", x) for x in sorted(cb - ca)]
+        diffs = []
+        for x in sorted(set(ca) | set(cb)):
+            d_ = ca[x] - cb[x]
+            if d_:
+                diffs.append(("scalar" if d_ > 0 else "vector", x + (abs(d_),)))
         new = [(side, x) for side, x in diffs if (a, b, side, x) not in TWIN_TRIAGED]
         res.ob(f"TWIN:{a}/{b}", not new, {"rule": "TWIN", "pair": f"{a}/{b}", "conditions_scalar": len(ca), "conditions_vector": len(cb),
-                                           "shared": len(ca & cb), "triaged_differences": len(diffs) - len(new), "new_differences": [f"{s}: {x}" for s, x in new]})
+                                           "shared": sum((ca & cb).values()), "triaged_differences": len(diffs) - len(new), "new_differences": [f"{s}: {x}" for s, x in new]})
         for side, x in new:
             fn = m.funcs[a if side == "scalar" else b]
-            res.add(Finding("TWIN", m.rel, f"{a}/{b}", f"{x[0]} {x[2]} {x[1]} only in the {side} version",
+            res.add(Finding("TWIN", m.rel, f"{a}/{b}", f"{x[3]} condition(s) of shape `{x[0]} {x[2]} {x[1]}` only in the {side} version",
                             "the scalar and the vectorised implementation are selected by batch size; a branch condition that exists in (or "
                             "places the boundary differently in) only one of them makes a row's value depend on how many rows are in the call", fn.lineno))
     res.analysed["twin_pairs"] = n
